@@ -195,6 +195,8 @@ package migrate
 //@ ghost var GvcRevs []*Revision
 //@ ghost var GvcCleanErr error
 //@ ghost var GvcCleanCalls int
+//@ ghost var GvcReadRevsCalls int
+//@ ghost var GvcFilesCalls int
 //@ spec func gvcLast() *Revision { return GvcRevs[len(GvcRevs)-1] }
 //@ spec func gvcHasRev(v string) bool { return (exists q int :: 0 <= q && q < len(GvcRevs) && GvcRevs[q].Version == v) }
 //@ spec func gvcNotClean(err error) bool { return errors.As(err, new(*NotCleanError)) }
@@ -202,14 +204,14 @@ package migrate
 
 //@ spec func GvcFileOK(f File) bool { return f != nil && (!GvcIs[*LocalFile](f) || f.(*LocalFile) != nil) }
 //@ extern func (d Dir) Files() (fs []File, err error)
-//@   effect if err == nil { GvcFiles = fs }
+//@   effect if err == nil { GvcFiles = fs; GvcFilesCalls++ }
 //@   ensures err == nil ==> (forall i int :: 0 <= i && i < len(fs) ==> GvcFileOK(fs[i]))
 //@   ensures gvcForeignErr(err)
 //@   ensures err == nil ==> GvcFresh(fs) || len(fs) == 0
 //@   ensures err == nil ==> (forall i int :: 0 <= i && i < len(fs) ==> fs[i] != nil)
 //@   ensures err == nil ==> (forall i int, j int :: 0 <= i && i < j && j < len(fs) ==> fs[i].Version() < fs[j].Version())
 //@ extern func (rw RevisionReadWriter) ReadRevisions(ctx context.Context) (rs []*Revision, err error)
-//@   effect if err == nil { GvcRevs = rs }
+//@   effect if err == nil { GvcRevs = rs; GvcReadRevsCalls++ }
 //@   ensures gvcForeignErr(err)
 //@   ensures err == nil ==> (forall i int :: 0 <= i && i < len(rs) ==> rs[i] != nil)
 //@   ensures err == nil ==> (forall i int, j int :: 0 <= i && i < j && j < len(rs) ==> rs[i].Version < rs[j].Version)
@@ -230,7 +232,7 @@ package migrate
 
 //@ func (e *Executor) Pending(ctx context.Context) (fs []File, err error)
 //@   requires e != nil && e.dir != nil && e.rrw != nil && e.log != nil && e.drv != nil
-//@   modifies struct(Revision), GvcStore, GvcWrites, GvcFiles, GvcRevs, GvcCleanErr, GvcCleanCalls
+//@   modifies struct(Revision), GvcStore, GvcWrites, GvcFiles, GvcRevs, GvcCleanErr, GvcCleanCalls, GvcReadRevsCalls, GvcFilesCalls
 //@   ensures nothing-pending-is-an-error: err == nil ==> len(fs) > 0
 //@   ensures error-returns-no-files: err != nil ==> len(fs) == 0
 //@   ensures files-nonnil: err == nil ==> (forall p int :: 0 <= p && p < len(fs) ==> fs[p] != nil)
@@ -244,6 +246,8 @@ package migrate
 //@              (exists p int :: 0 <= p && p < len(fs) && fs[p] == GvcFiles[i]))
 //@   ensures in-order: err == nil && len(GvcRevs) > 0 && gvcLast().Applied == gvcLast().Total && e.order == ExecOrderLinear ==>
 //@           (forall p int, q int :: 0 <= p && p < q && q < len(fs) ==> fs[p].Version() < fs[q].Version())
+//@   ensures partial-file-resumed-first: err == nil && len(GvcRevs) > 0 && gvcLast().Applied != gvcLast().Total && e.order != ExecOrderNonLinear ==>
+//@           len(fs) > 0 && fs[0].Version() == gvcLast().Version
 //@   ensures non-linear-error: GvcIs[*HistoryNonLinearError](err) ==> e.order == ExecOrderLinear && len(err.(*HistoryNonLinearError).OutOfOrder) > 0 &&
 //@           (forall p int :: 0 <= p && p < len(err.(*HistoryNonLinearError).OutOfOrder) ==> !gvcHasRev(err.(*HistoryNonLinearError).OutOfOrder[p].Version()))
 //@   loop 1 freshwrites
@@ -276,7 +280,7 @@ package migrate
 
 //@ func Validate(dir Dir) (err error)
 //@   requires dir != nil
-//@   modifies GvcStoredSum, GvcComputedSum, GvcReadErr, GvcChecksumErr, GvcChecksumCalls, GvcChecksumAt, GvcFiles
+//@   modifies GvcStoredSum, GvcComputedSum, GvcReadErr, GvcChecksumErr, GvcChecksumCalls, GvcChecksumAt, GvcFiles, GvcFilesCalls
 //@   ensures nil-implies-equal: err == nil && GvcReadErr == nil ==> GvcChecksumCalls != old(GvcChecksumCalls) && gvcHFEqual(GvcStoredSum, GvcComputedSum)
 //@   ensures mismatch-is-checksum-error: GvcReadErr == nil && GvcChecksumCalls != old(GvcChecksumCalls) && GvcChecksumErr == nil && !gvcHFEqual(GvcStoredSum, GvcComputedSum) ==>
 //@           GvcIs[*ChecksumError](err) && err.(*ChecksumError).Total == len(GvcStoredSum) &&
